@@ -36,7 +36,12 @@ ffff_gmtime(struct tm *tm, const time_t t)
 	/* stolen from libc */
 #define DIV(a, b)		((a) / (b))
 /* we only care about 1901 to 2099 and there are no bullshit leap years */
-#define LEAPS_TILL(y)		(DIV(y, 4))
+#if defined WITH_FAST_ARITH
+# define LEAPS_TILL(y)		(DIV(y, 4))
+#else  /* !WITH_FAST_ARITH */
+/* in line with __leapp() */
+# define LEAPS_TILL(y)		(DIV(y, 4) - DIV(y, 100) + DIV(y, 400))
+#endif	/* WITH_FAST_ARITH */
 	while (days < 0 || days >= (!__leapp(yy) ? 365 : 366)) {
 		/* Guess a corrected year, assuming 365 days per year. */
 		register unsigned int yg = yy + days / 365 - (days % 365 < 0);
